@@ -390,6 +390,9 @@ def o11(h, st):
     h.done()
 
 
+from tverif.engine import repeatable
+repeatable((MT, "fermion_to_qubit_mapping"), (MT, "make_up_then_down"), (JK, "jkmn"), (SM, "get_vector"), (SM, "get_reference_circuit"), (SM, "vector_to_circuit"))
+
 PROPERTY = {
     "level": "other",
     "explanation": "Full-space encodings (JW, BK, JKMN; both orderings; registers larger than the operator's support): adjoints, the canonical anticommutation "
